@@ -150,5 +150,13 @@ theorem genesis_code_as_modelled : Generated.genesisFunctions = [
   ("ExportGenesis", "20516dd522599b40")
 ] := rfl
 
+
+/-- a restart cannot fail where the parameters are valid (INV-P): the only fallible step of `InitGenesis` is the parameter
+    validation — so the restart theorem needs no "the restart succeeded" -/
+theorem restart_never_fails (w : World) (hp : ParamsOK w) : ∃ w', reimport w = (.ok (), w') := reimport_never_fails w hp
+
+theorem restart_succeeds_and_restores (w : World) (hok : RestartOK w) (hp : ParamsOK w) :
+    ∃ w', reimport w = (.ok (), w') ∧ SameModuleState w w' ∧ RX w' ∧ w'.flag = false := restart_always_restores w hok hp
+
 end C18
 end Alliance
